@@ -448,7 +448,12 @@ def install():
     pe.sleep = sim_sleep
     pe.time = sim_time
     pe.os = types.SimpleNamespace(getpid=sim_getpid, environ=os.environ, sysconf=os.sysconf)
-    pe._USE_PSUTIL = False
+    # the memory-leak protection of the worker loop: "memory" is a per-process number that a task can bump (scenarios.t_leak); the check
+    # runs after every task (no delay) and performs no operation on a simulated primitive, so schedules are unchanged by it
+    pe._USE_PSUTIL = True
+    pe._get_memory_usage = sim_memory_usage
+    pe._MEMORY_LEAK_CHECK_DELAY = -1.0
+    pe._MAX_MEMORY_LEAK_SIZE = 100
     pe.kill_process_tree = sim_kill_process_tree
     pe._enable_faulthandler_if_needed = lambda: None
     pe._ExecutorManagerThread.start = _mgr_start
@@ -461,11 +466,19 @@ def install():
     re_.cpu_count = lambda: 2
 
 
+SIM_MEM = {}
+
+
+def sim_memory_usage(pid, force_gc=False):
+    return SIM_MEM.get(pid, 0)
+
+
 def new_kernel(chooser, max_steps=4000, trace_ops=False):
     """fresh kernel + fresh module-level state for one scenario"""
     global KER
     install()
     gc.disable()
+    SIM_MEM.clear()
     # names of actors, processes, pipes and anonymous semaphores restart with every scenario: a recorded schedule (which names
     # the actor chosen at each step) can then be replayed in a fresh process
     import itertools
